@@ -16,7 +16,7 @@ def scen_tight(ch, params, out):
     for s in samples:
         if not oracles.inhabits_ir(s, root, why):
             return      # unsound inference is C01's finding; witnesses are only defined for admitted samples
-    bad = oracles.tightness_violations(root, samples)
+    bad = oracles.tightness_violations(root, samples, st["gen"].str_types_registry)
     out.check(not bad, "not_tight", lambda: f"{bad[:4]} for samples {samples}; root={root.type}",
               "not_tight:" + (bad[0].split(":")[1].strip().split(" ")[0] if bad else ""))
 
@@ -30,6 +30,12 @@ def parts(tier):
             CH("triples", "vflib.props.c02:scen_tight",
                {"kinds": "KINDS_INTERACT", "samples": 3, "keys": ["a"], "dkf": True},
                shards=16, timeout=170, path_timeout=30, mode="CH-P+CH-E"),
+            CH("literals", "vflib.props.c02:scen_tight",
+               {"kinds": "KINDS_LIT", "samples": 2, "keys": ["a"], "merge": ["default"], "symbolic_leaves": False},
+               shards=14, timeout=170, path_timeout=30, mode="CH-E"),
+            CH("literals_merged_models", "vflib.props.c02:scen_tight",
+               {"kinds": "KINDS_LITM", "samples": 1, "keys": ["a", "b"], "merge": ["default"], "symbolic_leaves": False},
+               shards=4, timeout=170, path_timeout=30, mode="CH-E"),
         ]
     return []
 
